@@ -155,10 +155,11 @@ theorem readU64Le_spec {b rest : List Nat} {p v : Nat} (hd : b.drop p = le64 v +
   have h1 := lt_length_of_drop_eq hd
   rw [le64_length] at h1
   unfold FileM.readU64Le
-  have hr : FileM.readBytes 8 ⟨b, p⟩ = some (le64 v, ⟨b, p + 8⟩) := by
-    unfold FileM.readBytes
+  have hr : FileM.readPad 8 ⟨b, p⟩ = some (le64 v, ⟨b, p + 8⟩) := by
+    unfold FileM.readPad
     simp only
-    rw [if_pos (by omega), hd, take8_le64]
+    rw [if_pos (by omega), hd, take8_le64, le64_length]
+    simp
   rw [bind_some hr, pure_apply, ofLeBytes_le64 v hv]
 
 theorem readFreePieceOffset_spec {b rest : List Nat} {p v : Nat} (hd : b.drop p = le64 v ++ rest)
